@@ -117,6 +117,13 @@ def run(ctx):
     ctx.cov['unsupported_paths'] = dict(unsup)
     if mism: ctx.note_inconclusive('%d paths where the native build disagrees with the encoding (model mismatch)' % mism)
     if unsup: ctx.note_inconclusive('%d paths ended in an unmodelled construct: %s' % (sum(unsup.values()), list(unsup)[:3]))
+    # second clause of the property: evaluation terminates, also with a resolver whose refs form cycles
+    from props import C07
+    C07.QUICK[0] = ctx.quick()
+    W = sym.explore_templates(ctx, C07, C07.wildcard_templates(), prog, split_depth=4, budget_s=120 if ctx.quick() else 600)
+    sym.native_check(ctx, W)
+    C07.verdict(ctx, W)
+    ctx.cov['eval_paths'] = len(W)
     ctx.assume('symbolic text bytes range over ASCII (Filter::try_from takes &str); non-ASCII text only in concrete skeleton parts')
     ctx.assume('std float text beyond 15 significant digits is axiomatised')
     ctx.obligation('parser-no-panic-no-hang', 'held' if not ctx.violations else 'violated', paths=len(S))
